@@ -86,14 +86,64 @@ def gen_paced(rng):
     return c
 
 
+ASSUMPTIONS.append('groups: in about a quarter of the histories a second (sometimes a third) sender with its own congestion-control object of the same class '
+                   '(Reno: other MSS / initial cwnd / ssthresh), its own ACK script and its own recorder runs in the same Environment, mostly under the '
+                   'same flow id; every sender is replayed through the sender LTS as a case of its own (application-paced ones are oracle-only) and '
+                   'judged by the window oracle on its own events only')
+
+
+def gen_group(rng):
+    """a sender under a scripted ACK history and, in about a quarter of the cases, one or two PEER senders in the same Environment,
+    each with its own congestion-control object of the same class, its own window, estimator, timers and script: the window
+    and RTO rules speak of one connection's state."""
+    c = gen_case(rng)
+    if rng.random() < 0.75:
+        return c
+    c['peers'] = []
+    for j in range(rng.choice([1, 1, 1, 2])):
+        p = gen_paced(rng) if rng.random() < 0.2 else gen_case(rng)
+        if p['kind'] != c['kind']:
+            p['kind'] = c['kind']                                # (cwnd was drawn as a multiple of ccmss: still >= one MSS)
+            if p['size'] is not None and not p.get('arrival'):
+                seg = p['ccmss'] if p['kind'] == 'reno' else MSS
+                p['size'] = max(1, p['size'] // seg) * seg       # the flow size stays a whole number of the sender's segments
+        p['flow_id'] = 0 if rng.random() < 0.6 else j + 1
+        p['first'] = rng.random() < 0.3
+        c['peers'].append(p)
+    return c
+
+
 def run_impl(case):
+    """returns (SenderRun, ended) of the sender under test; the SenderRuns of its peers are in `.peer_runs`"""
     env = Environment()
+    peers = case.get('peers') or []
+    dones = [[INF] for _ in range(1 + len(peers))]
+    built = {j: build_sender(env, p, dones[j + 1]) for j, p in enumerate(peers) if p.get('first')}
+    sr = build_sender(env, case, dones[0])
+    for j, p in enumerate(peers):
+        if j not in built:
+            built[j] = build_sender(env, p, dones[j + 1])
+    sr.peer_runs = [built[j] for j in range(len(peers))]
+    ended = sr.run(horizon=lambda: max(d[0] for d in dones), budget=200000, peers=sr.peer_runs)
+    return sr, ended
+
+
+def units(i, c, sr):
+    """[(key, label, sub-case, SenderRun)]: the sender under test and the peers of its group"""
+    out = [(str(i), '', c, sr)]
+    peers = c.get('peers') or []
+    for j, (pc, pr) in enumerate(zip(peers, sr.peer_runs)):
+        cfg = {k: pc[k] for k in ('ccmss', 'cwnd', 'ssthresh', 'size', 'flow_id') if k in pc}
+        out.append((f'{i}.p{j + 1}', f'sender {j + 2} of {len(peers) + 1} in one Environment ({pc["kind"]}, {cfg}): ', pc, pr))
+    return out
+
+
+def build_sender(env, case, done):
     rec = Recorder()
     cc = make_cc(case['kind'], case['ccmss'], case['cwnd'], case['ssthresh'])
     sr = SenderRun(env, case['kind'], cc, case['rtt_estimate'], case['size'], rec,
-                   arrival=case.get('arrival'), sizes=case.get('sizes'))
+                   arrival=case.get('arrival'), sizes=case.get('sizes'), flow_id=case.get('flow_id', 0))
     s = sr.sender
-    done = [INF]
     rng = random.Random(json.dumps(case['script'], sort_keys=True))   # resolves 'outstanding' / 'odd' choices
 
     def gap_of(g):
@@ -151,8 +201,8 @@ def run_impl(case):
         done[0] = env.now
 
     env.process(driver())
-    ended = sr.run(horizon=lambda: done[0], budget=200000)
-    return sr, ended
+    sr.peer_runs = []
+    return sr
 
 
 # ---- the textbook rules, recomputed from the observed before/after states ---------------------------------------------
@@ -330,23 +380,29 @@ def run(ctx):
         cases = load_replay(ctx.replay)
     else:
         n = 1000 if ctx.quick else 30000
-        cases = [gen_case(rng) for _ in range(n)]
+        cases = [gen_group(rng) for _ in range(n)]
         cases += [gen_paced(rng) for _ in range(n // 4)]
     disagreements, oracle_failures = [], []
     hist = collections.Counter()
     samples = []
     distinct = set()
     lines_compared = 0
+    again = 0
     CH = 1500
     for base in range(0, len(cases), CH):
         chunk = list(enumerate(cases[base:base + CH], base))
         runs = {i: run_impl(c) for i, c in chunk}
-        model = model_batch('tcpsender', [runs[i][0].text(i) for i, c in chunk if not c.get('arrival')], 300)
-        for i, c in chunk:
-            sr, ended = runs[i]
-            m = model.get(str(i))
+        allu = [(key, label, uc, c, ur, runs[i][1]) for i, c in chunk for key, label, uc, ur in units(i, c, runs[i][0])]
+        model = model_batch('tcpsender', [ur.text(key) for key, label, uc, c, ur, _ in allu if not uc.get('arrival')], 300)
+        for key, label, c, top, sr, ended in allu:
+            m = model.get(key)
             lines_compared += len(sr.trace)
             hist['kind-' + c['kind']] += 1
+            if label:
+                hist['peer-senders'] += 1
+                hist['peer-senders-same-flow-id'] += 1 if c.get('flow_id', 0) == 0 else 0
+            elif top.get('peers'):
+                hist['histories-with-peer-senders'] += 1
             for r in sr.records:
                 hist['ev-' + r['tag']] += 1
                 if r['tx']:
@@ -357,8 +413,8 @@ def run(ctx):
                 hist['paced-flow-oracle-only'] += 1
             elif sr.trace != m:
                 d = first_diff(sr.trace, m)
-                disagreements.append({'case': c,
-                                      'detail': f'line {d[0]}: impl `{d[1][:300]}` model `{d[2][:300]}` {explain_diff(d[1], d[2])}',
+                disagreements.append({'case': top,
+                                      'detail': f'{label}line {d[0]}: impl `{d[1][:300]}` model `{d[2][:300]}` {explain_diff(d[1], d[2])}',
                                       'impl': sr.lines[:d[0] // 2 + 4] + ['--'] + sr.trace[max(0, d[0] - 3):d[0] + 2],
                                       'model': (m or [])[max(0, d[0] - 3):d[0] + 2]})
             fs = oracle(c, sr, hist)
@@ -367,12 +423,24 @@ def run(ctx):
                 fs.append({'what': f'the sender raised {type(x).__name__}: {x} (during {sr.error[0]})',
                            'signature': f'sender-raise-{type(x).__name__}'})
             for f in fs:
-                f.update(case=c, trace=sr.lines[:120])
+                f.update(case=top, trace=sr.lines[:120], what=label + f['what'])
                 oracle_failures.append(f)
-            if nontrivial(sr):
-                distinct.add(json.dumps(c, sort_keys=True))
-                if len(samples) < 2 and len(sr.lines) < 40:
+            if not label and nontrivial(sr):
+                distinct.add(json.dumps(top, sort_keys=True))
+                if len(samples) < 2 and len(sr.lines) < 40 and not top.get('peers'):
                     samples.append({'case': c, 'events': sr.lines})
+        if base == 0 and not ctx.replay:
+            # the first histories executed again later in this process: same events, same emitted segments
+            for i, c in chunk[:60]:
+                again += 1
+                sr2, _ = run_impl(c)
+                for (key, label, uc, u1), (_, _, _, u2) in zip(units(i, c, runs[i][0]), units(i, c, sr2)):
+                    if u1.lines != u2.lines or u1.tx.log != u2.tx.log:
+                        d = first_diff(u1.lines, u2.lines) or (0, u1.tx.log[:3], u2.tx.log[:3])
+                        oracle_failures.append({'what': f'{label}the same ACK history executed a second time in this process gives another sender history: '
+                                                        f'event {d[0]}: first `{d[1]}`, again `{d[2]}`', 'signature': 'sender-second-execution-differs',
+                                                'case': c, 'trace': u2.lines[:120]})
+                        break
     from py2lean import translate
     cov = {
         'evaluations': len(cases),
@@ -380,7 +448,8 @@ def run(ctx):
         'rule': 'distinct ACK histories containing at least one loss event (third duplicate ACK or retransmission timeout) and '
                 'at least one new ACK in congestion avoidance (cwnd > ssthresh)',
         'samples': samples,
-        'traces_validated_against_impl': len(cases) - len(disagreements) - hist['paced-flow-oracle-only'],
+        'traces_validated_against_impl': len(cases) - len({json.dumps(d['case'], sort_keys=True) for d in disagreements}) - sum(1 for c in cases if c.get('arrival')),
+        'histories_executed_a_second_time': again,
         'observation_lines_compared': lines_compared,
         'operation_histogram': dict(sorted(hist.items())),
         'translated': translate.TRANSLATED,
